@@ -182,6 +182,7 @@ pub fn lanes_for(prop: &str, tier: &str, seed: u64) -> Vec<Scenario> {
         "C18" => {
             v.extend(gen_cli::lane_env(seed));
             v.extend(gen_cli::lane_update(seed));
+            v.extend(gen_cli::lane_create(seed));
             v.extend(gen_cli::lane_cli_fates(seed, if thorough { 1 } else { 6 }));
             v.extend(gen_cli::lane_random(Tier::Cli, seed, n_rand_cli * 2, "C18"));
         }
